@@ -191,7 +191,7 @@ def lift_obs(reply):
 class LiftProp(Prop):
     zero_prob = 0.0
     nonempty = False
-    n_files = {"quick": 250, "thorough": 4000}
+    n_files = {"quick": 250, "thorough": 15000}
     n_ivs = 14
     big_prob = 0.08
     exhaustive_small = False
@@ -530,7 +530,7 @@ class C10(LiftProp):
             "for the first, last and a random interior base of every block: lift the single base x in the file, then lift every "
             "image y in the twin and require x among the images; non-trivial = block on a '-' side or with non-zero gaps before it; "
             "distinct by (file, base)")
-    n_files = {"quick": 150, "thorough": 2500}
+    n_files = {"quick": 150, "thorough": 8000}
 
     def cases(self, rng, tier):
         for _ in range(self.n_files[tier]):
@@ -612,7 +612,7 @@ class C11(LiftProp):
     id = "C11"
     title = "Chains act independently; results are deterministic and ordered"
     zero_prob = 0.04
-    n_files = {"quick": 150, "thorough": 2500}
+    n_files = {"quick": 150, "thorough": 8000}
     n_ivs = 10
     rule = ("well-formed files with >= 2 chains x intervals: answer over the file = multiset union of the answers over each chain "
             "alone; a random permutation of the chains gives the same multisets; the file is built twice in-process (fresh "
@@ -1525,7 +1525,7 @@ class C08(Prop):
             "distinct by (file, offset or fault position)")
 
     def cases(self, rng, tier):
-        for _ in range(12 if tier == "quick" else 400):
+        for _ in range(12 if tier == "quick" else 800):
             cs = canonical_file(rng)
             chains = [ch.chain_from_dict(c) for c in cs]
             ivs = [list(ch.gen_interval(rng, chains)) for _ in range(10)]
@@ -1664,7 +1664,7 @@ class C17(Prop):
     _canon_cache = {}
 
     def cases(self, rng, tier):
-        for _ in range(400 if tier == "quick" else 15000):
+        for _ in range(400 if tier == "quick" else 40000):
             lines = gen_line_case(rng, tier)
             if rng.random() < 0.6:
                 chains = ch.gen_file(rng, max_chains=3)
@@ -2313,7 +2313,7 @@ class C18(Prop):
         return out
 
     def cases(self, rng, tier):
-        for _ in range(25 if tier == "quick" else 600):
+        for _ in range(25 if tier == "quick" else 1200):
             chains = ch.gen_file(rng) if rng.random() < 0.9 else ch.gen_big_file(rng)
             ivs = [list(ch.gen_interval(rng, chains)) for _ in range(24)]
             yield {"kind": "threads", "chains": [ch.chain_to_dict(c) for c in chains], "ivs": ivs}
